@@ -36,3 +36,17 @@ func Examples() []*Spec {
 	}
 	return out
 }
+
+// StackCapturingKinds lists the default kinds whose own layers record
+// a stack trace (computed from the model of one example per kind).
+func StackCapturingKinds() []string {
+	var out []string
+	for _, ex := range Examples() {
+		for _, l := range Chain1(ex) {
+			if l.Stack && !in(ex.K, out) {
+				out = append(out, ex.K)
+			}
+		}
+	}
+	return out
+}
